@@ -17,6 +17,17 @@ CHECKS = {
              "register/radix spellings and .repeat groups. Exploration level: form coverage is complete, value coverage is sampled.",
         note="Trusted: vf/ref/pdp11.py written from the handbook (231 rows independent, 21 pinned rows are change detection only).",
         design="4/C01"),
+    "C02": dict(
+        category="exploration",
+        technique="Hypothesis program generation, differential against a reference assembler, plus a model-free trace invariant through the guarded hook",
+        text="Generated programs over every size-bearing statement kind (late-sized statements, nested repeats, includes to depth 3, "
+             "inserted binaries, 1-3 linked files, even and odd bases) are assembled by pdpy11 and by an independent lazy reference "
+             "assembler; base, image and every symbol value must agree. Independently of any model, the PDPY11_VERIF trace lets the "
+             "check assert the property literally: the bytes at the address each statement was given are the bytes it produced, and the "
+             "leaf statements tile the image without gap or overlap; the same invariant and the recorded out.bin are checked on the 21 "
+             "practice programs. Programs the reference cannot decide (dependency cycles) are counted and skipped.",
+        note="Trusted: vf/model.py, vf/ref/*; the hook only appends to a list. Time-budget hits (10 s per program) are counted as inconclusive.",
+        design="4/C02"),
     "C04": dict(
         category="exploration",
         technique="exhaustive enumeration of branch/SOB distances x operand shapes + Hypothesis relative-operand programs, checked by an independent PDP-11 decoder and an accept/reject table",
